@@ -96,9 +96,8 @@ class PythonMethodAnalyzer:  # thailint: ignore[srp]
             if class_id not in self._visited_classes:
                 self._visited_classes.add(class_id)
                 self._analyze_class(node)
-        else:
-            for child in ast.iter_child_nodes(node):
-                self._visit_node(child)
+        for child in ast.iter_child_nodes(node):
+            self._visit_node(child)
 
     def _analyze_class(self, class_node: ast.ClassDef) -> None:
         """Analyze a class for property candidates.
